@@ -19,13 +19,13 @@ def tm(k, v, ck='iri', tt=''):
     return {'k': k, 'v': v, 'ck': ck, 'tt': tt}
 
 
-def big_case(rng, nrows, long_lines, mode, nquads):
+def big_case(rng, nrows, long_lines, mode, nquads, extra_tms=0):
     rows = []
     for i in range(nrows):
         v = 'v%d' % i
         if long_lines and rng.random() < long_lines:
             # 3 KiB ... 15 KiB, and now and then a value far above any plausible buffer or pipe size (about 100 KiB / 400 KiB)
-            v = ('x%d-' % i) * rng.choice([1500, 2100, 3000, 700, 1500, 2100, 3000, 700, 22000, 80000])
+            v = (rng.choice(['x%d-', 'é%d–', '日本%d']) % i) * rng.choice([1500, 2100, 3000, 700, 1500, 2100, 3000, 700, 22000, 80000])      # ASCII and multi-byte text
         rows.append([str(i), v, rng.choice(['a', 'b', 'c']), 'w%d' % (i % 7)])
     preds = ['p/name', 'p/kind', 'q/w', 'r/x']
     poms = [{'preds': [tm('const', EX + preds[0])], 'objs': [{'m': tm('ref', 'v'), 'lang': None, 'dt': None, 'joins': []}], 'graphs': []},
@@ -34,6 +34,10 @@ def big_case(rng, nrows, long_lines, mode, nquads):
     doc = [{'id': EX + 'tm/A', 'src': 'S0', 'nonasserted': False, 'subj': tm('templ', EX + 'a/{id}'), 'sjoins': [], 'classes': [EX + 'class/A'], 'sgraphs': [], 'poms': poms},
            {'id': EX + 'tm/B', 'src': 'S0', 'nonasserted': False, 'subj': tm('templ', EX + 'b/{id}'), 'sjoins': [], 'classes': [], 'sgraphs': [],
             'poms': [{'preds': [tm('const', EX + preds[3])], 'objs': [{'m': tm('templ', EX + 'a/{id}'), 'lang': None, 'dt': None, 'joins': []}], 'graphs': []}]}]
+    # many mapping groups (more than any small multiple of the number of processes): triples maps with pairwise incomparable subject prefixes
+    for j in range(extra_tms):
+        doc.append({'id': EX + 'tm/X%d' % j, 'src': 'S0', 'nonasserted': False, 'subj': tm('templ', EX + 'x%d/{id}' % j), 'sjoins': [], 'classes': [], 'sgraphs': [],
+                    'poms': [{'preds': [tm('const', EX + 'p/x')], 'objs': [{'m': tm('ref', 'w'), 'lang': None, 'dt': None, 'joins': []}], 'graphs': []}]})
     return {'cfg': {'nquads': nquads, 'mode': mode}, 'sources': [{'key': 'S0', 'kind': 'csv', 'cols': ['id', 'v', 'k', 'w'], 'rows': rows}], 'doc': doc}
 
 
@@ -62,11 +66,12 @@ def run(ctx, res):
     wd = common.workdir()
     if not os.path.exists(SHIM):
         res.disagreements.append({'what': 'write-log shim not built: ' + SHIM, 'replay': None}); return
-    specs = [(0, 0, 'NO'), (1, 0, 'PARTIAL-AGGREGATIONS'), (40, 0, 'NO'), (300, 0.05, 'NO'), (300, 0.05, 'PARTIAL-AGGREGATIONS'), (1200, 0, 'MAXIMAL'), (150, 0.3, 'PARTIAL-AGGREGATIONS')]
+    specs = [(0, 0, 'NO'), (1, 0, 'PARTIAL-AGGREGATIONS'), (40, 0, 'NO'), (300, 0.05, 'NO'), (300, 0.05, 'PARTIAL-AGGREGATIONS'), (1200, 0, 'MAXIMAL'), (150, 0.3, 'PARTIAL-AGGREGATIONS'), (60, 0, 'PARTIAL-AGGREGATIONS', 21)]
     if not ctx.quick:
         specs += [(6000, 0.01, 'PARTIAL-AGGREGATIONS'), (6000, 0.01, 'NO'), (20000, 0, 'PARTIAL-AGGREGATIONS'), (800, 0.5, 'MAXIMAL')]
-    for si, (nrows, longp, mode) in enumerate(specs):
-        case = big_case(ctx.rng, nrows, longp, mode, nquads=(si % 2 == 0))
+    for si, spec in enumerate(specs):
+        nrows, longp, mode = spec[:3]
+        case = big_case(ctx.rng, nrows, longp, mode, nquads=(si % 2 == 0), extra_tms=(spec[3] if len(spec) > 3 else 0))
         ref = run_cli(ctx, case, wd, 'ref%d' % si, 1)
         if not ref.get('ok') or ref['result']['rc'] != 0:
             res.disagreements.append({'what': 'reference run failed: %s' % str(ref)[:300], 'replay': None}); continue
